@@ -1116,13 +1116,15 @@ func valuesOfType(r *rng, t string) []interface{} {
 	case "string":
 		// (control characters and runes Go's %q and JSON quote differently; non-BMP; U+2028; DEL)
 		for _, x := range []string{"", "x", "é", "12", "true", "<&>", "\"\\", "a\nb", " ", "2021-09-24T10:11:12Z",
-			"\a", "\v\f", "\x00\x1f", "\x7f", "\u2028\u2029", "\U0001F600", "\U000E0001", "\u00ad\ufeff", "tab\there"} {
+			"\\u003c", "x\\u0026\\", strings.Repeat("long text ", 300), "\a", "\v\f", "\x00\x1f", "\x7f", "\u2028\u2029", "\U0001F600", "\U000E0001", "\u00ad\ufeff", "tab\there"} {
 			add(x)
 		}
 	case "[]byte":
 		add([]byte{})
 		add([]byte("hi"))
 		add([]byte{0, 255, 1, 2, 3, 4, 5, 6, 7})
+		add(bytes.Repeat([]byte{0xde, 0xad, 0xbe, 0xef}, 250))  // 1000 bytes: more than one read of a streaming base64 decoder
+		add(bytes.Repeat([]byte{0, 1, 2, 3, 4, 5, 6}, 1000)) // 7000 bytes
 	case "time.Time":
 		for _, s := range []int64{0, 1, 1632478272, 253402214400, 951782400, -1, 4102444800} {
 			add(time.Unix(s, 0))
@@ -1253,6 +1255,9 @@ func (c *templCtx) binaryColumnOracle() {
 	for tn, w := range widths {
 		tpl := jsonline.NewTemplate().WithMappedBinary("c", typeSample[tn])
 		payloads := append([][]byte{}, special...)
+		for _, extra := range []int{256, 512, 65536} {
+			payloads = append(payloads, bytes.Repeat([]byte{7}, w+extra)) // a length that equals the size modulo 256 / 65536
+		}
 		for i := 0; i < 12; i++ {
 			b := make([]byte, c.r.intn(18))
 			for j := range b {
@@ -1420,6 +1425,21 @@ func (c *templCtx) fixedPointSweep() {
 					c.enc, c.encL = map[string]bool{}, nil
 					c.judgeOutput(in.cols, out, ii == 0 || sameNames(in.cols, out), line, L, nw, ctx, to)
 					c.enc, c.encL = save, saveL
+					// C14 at column level: a date-time text with an explicit offset comes out of a date-time column (or a string
+					// column holding a time) as the same instant with the same offset, sub-second digits dropped
+					if c.props["C14"] && len(v) > 2 && v[0] == '"' && (f == jsonline.DateTime && (t == "" || t == "time.Time") || f == jsonline.String && t == "time.Time") {
+						if wantSec, wantOff, ok := readRFC3339(v[1 : len(v)-1]); ok {
+							c.rep.OracleChecks["C14"]++
+							if tree, err := refTree(bytes.TrimSuffix(L, []byte("\n"))); err == nil && tree.kind == 'o' {
+								if m := tree.member("c"); m != nil {
+									gotSec, gotOff, ok2 := readRFC3339(m.s)
+									if m.kind != 's' || !ok2 || gotSec != wantSec || gotOff != wantOff {
+										c.violate("C14", fmt.Sprintf("the date-time %s is written back as %s: instant %d offset %d expected, got %d / %d", v, m.raw, wantSec, wantOff, gotSec, gotOff), ctx)
+									}
+								}
+							}
+						}
+					}
 				}
 			}
 		}
@@ -1429,7 +1449,7 @@ func (c *templCtx) fixedPointSweep() {
 // more values for the sweep: numbers beyond float64, fractional / exponent timestamps, date look-alikes
 // with one-digit fields, control characters Go and JSON quote differently, arrays and objects whose
 // members are not in alphabetical order
-var sweepMore = []string{`"2023/02/03"`, `"2023.02.03"`, `"03/02/2023"`, `"2023-02-03Z"`, `"a\n\n"`, `"w\r\n\r\n"`, `"\n"`, `" x "`, `200000000000000`, `100000000000000`, `-200000000000000`, `253402300799`, `253402300800`, `253402250400`, `253402214400`, `-62167219200`, `-62167219201`, `-62167180000`, `-62167250000`, `"9999-12-31T23:30:00-01:00"`, `"0000-01-01T00:30:00+01:00"`, `1e400`, `-1E+999`, `1e-400`, `1632823189.5`, `1.6e9`, `0.0`, `"2021-9-4"`, `"2021-09-4"`, `"2021-9-04"`, `"21-09-24"`,
+var sweepMore = []string{`"\\u003c"`, `"a\\u0026b\\\\u003e"`, `"2021-09-24 "`, `" 2021-09-24"`, `"2021-09-24\t"`, `1e21`, `1.2345678901234568e+29`, `123456789012345678901234567890`, `18446744073709551615`, `9223372036854775808`, `"2023/02/03"`, `"2023.02.03"`, `"03/02/2023"`, `"2023-02-03Z"`, `"a\n\n"`, `"w\r\n\r\n"`, `"\n"`, `" x "`, `200000000000000`, `100000000000000`, `-200000000000000`, `253402300799`, `253402300800`, `253402250400`, `253402214400`, `-62167219200`, `-62167219201`, `-62167180000`, `-62167250000`, `"9999-12-31T23:30:00-01:00"`, `"0000-01-01T00:30:00+01:00"`, `1e400`, `-1E+999`, `1e-400`, `1632823189.5`, `1.6e9`, `0.0`, `"2021-9-4"`, `"2021-09-4"`, `"2021-9-04"`, `"21-09-24"`,
 	`"2021-09-24T10:11:12"`, `"2021-09-24 10:11:12Z"`, `"a\u0007b"`, `"\u000b"`, `"\u007f"`, `"\u0000"`, `"\ud83d\ude00"`, `"\u2028"`,
 	`[]`, `[1,"a",null]`, `{}`, `{"z":1,"a":2}`, `{"z":{"n":1,"b":[{"y":1,"x":2}]},"a":null,"m":"t"}`, `" 1"`, `"0x10"`, `"+5"`, `".5"`, `"5."`, `"007"`, `"NaN"`, `"Infinity"`,
 	`"1e400"`, `"QQ="`, `"QQ"`, `"Q Q=="`, `"////"`, `"-_-_"`}
@@ -1489,7 +1509,7 @@ func templateStream(seed uint64, tier string, outDir string, props map[string]bo
 	if props["C11"] {
 		c.binaryColumnOracle()
 	}
-	if props["C05"] || props["C04"] || props["C03"] || props["C01"] {
+	if props["C05"] || props["C04"] || props["C03"] || props["C01"] || props["C14"] {
 		c.fixedPointSweep()
 	}
 	return rep
